@@ -335,10 +335,19 @@ def _smooth_ranking(rc: RuleCtx):
         app_events = [e for e in out.events if e.kind == "append"]
         # a float array preallocated with np.zeros(len(knees)) and filled at the loop position collects the same values
         from ..gvn import Event as _Ev
+        def _prealloc(v_):
+            # np.zeros(len(knees)) (modelled as 0) or np.empty(len(knees)[, dtype=float]): one float slot per knee
+            if isinstance(v_, Rat) and v_.is_zero():
+                return True
+            a_ = single_atom(v_) if isinstance(v_, Rat) else None
+            return a_ is not None and a_.name in ("np.empty", "np.zeros") and len(a_.args) >= 1 and a_.args[0].equals(sym("K"))
         for e_ in out.events:
             if e_.kind == "store" and len(e_.args) == 2 and isinstance(e_.args[0], Rat) and e_.args[0].equals(b_.idx) and b_.lo.is_zero() \
-                    and isinstance(env.get(e_.target), Rat) and env[e_.target].is_zero():
+                    and _prealloc(env.get(e_.target)):
                 app_events.append(_Ev(e_.guard, "append", e_.target, (e_.args[1],), e_.node))
+        # values read through a hoisted column (heights = y[knees]; heights[i]) are the same elements: y[knees][i] == y[knees[i]]
+        from .. import elem as _elem
+        app_events = [_Ev(e_.guard, e_.kind, e_.target, tuple(_elem.simplify(a_) if isinstance(a_, Rat) else a_ for a_ in e_.args), e_.node) for e_ in app_events]
         ki = _at(knees, i)
         j = _at(knees, C(0))
         klast = _at(knees, C(-1))
